@@ -242,8 +242,17 @@ func TestVerifC20(t *testing.T) {
 		ww := w
 		hk.Parallel(len(inputs), func(i int) {
 			s := inputs[i]
-			out := make([]int, 257)
-			p, msg, _, _ := hk.Try(func() { DecomposeNAF(out, s, 257, ww) })
+			// the digit buffer may be longer than n: the extra slots are not part of the recoding
+			extra := []int{0, 0, 1, 3, 43}[i%5]
+			full := make([]int, 257+extra)
+			out := full[:257]
+			p, msg, _, _ := hk.Try(func() { DecomposeNAF(full, s, 257, ww) })
+			for _, v := range full[257:] {
+				if v != 0 && !p {
+					r.Violation(fmt.Sprintf("naf-writes-beyond-n-digits:w=%d", ww), hk.D{"s": hk.Hex(s), "w": ww, "buffer_len": len(full)})
+					break
+				}
+			}
 			if p {
 				r.Violation(fmt.Sprintf("naf-panics:w=%d", ww), hk.D{"s": hk.Hex(s), "w": ww, "panic": msg})
 				return
